@@ -6,6 +6,7 @@ import (
 	"fmt"
 	"math"
 	"reflect"
+	"regexp"
 	"sort"
 	"strconv"
 	"strings"
@@ -13,6 +14,9 @@ import (
 )
 
 type jpFunction func(arguments []interface{}) (interface{}, error)
+
+// jsonNumber matches the number production of the JSON grammar.
+var jsonNumber = regexp.MustCompile(`^-?(0|[1-9][0-9]*)(\.[0-9]+)?([eE][+-]?[0-9]+)?$`)
 
 type jpType string
 
@@ -822,8 +826,14 @@ func jpfToNumber(arguments []interface{}) (interface{}, error) {
 		return v, nil
 	}
 	if v, ok := arg.(string); ok {
+		// Only strings that are JSON numbers convert; this also keeps out
+		// what ParseFloat accepts beyond that ("inf", "nan", "0x1p-2", "+1").
+		if !jsonNumber.MatchString(v) {
+			return nil, nil
+		}
 		conv, err := strconv.ParseFloat(v, 64)
 		if err != nil {
+			// Out of range: there is no finite number to return.
 			return nil, nil
 		}
 		return conv, nil
